@@ -323,6 +323,10 @@ def check_break(ctx, rep, rule='B-break'):
         if k in ('pcall', 'call') and re.search(r'Float::(min|max)$', x[1]) and len(x[2]) == 2:
             a, c = ev(x[2][0], env, p, depth + 1), ev(x[2][1], env, p, depth + 1)
             return min(a, c) if x[1].endswith('min') else max(a, c)
+        if k in ('pcall', 'call') and re.search(r'Float::(infinity|max_value)$', x[1]) and not x[2]:
+            return float('inf')         # a bound no coordinate exceeds: `x > F::infinity()` never stops the sweep
+        if k in ('pcall', 'call') and re.search(r'Float::(neg_infinity|min_value)$', x[1]) and not x[2]:
+            return float('-inf')
         if k in ('pcall', 'call') and re.search(r'PartialEq(<[^>]*>)?>?::(eq|ne)$', x[1]) and len(x[2]) == 2:
             a, c = ev(x[2][0], env, p, depth + 1), ev(x[2][1], env, p, depth + 1)
             return (a == c) if x[1].endswith('eq') else (a != c)
